@@ -256,9 +256,95 @@ def crowd_load(task):
     return out
 
 
+class _Gate:
+    """parks ONE thread at its k-th file-system operation until released (the yield points of the tracing filesystem)"""
+
+    def __init__(self, ident, k):
+        import threading
+
+        self.ident, self.k, self.n = ident, k, 0
+        self.reached, self.release = threading.Event(), threading.Event()
+
+    def yield_point(self, ev):
+        import threading
+
+        if threading.get_ident() != self.ident:
+            return
+        self.n += 1
+        if self.n == self.k:
+            self.reached.set()
+            self.release.wait(30)
+
+
+def copy_mid_load(task):
+    """the tree is pickled / deep-copied by the main thread WHILE a worker thread is in the middle of a load (parked at its k-th file
+    operation, holding whatever a load holds); the first load from each copy is then made by that same worker: it returns what a
+    single-threaded load returns (copies carry no trace of the moment they were taken)"""
+    import copy
+    import threading
+
+    import ceos_alos2
+
+    from harness import oracle, product, tracefs
+
+    b = product.build_product(level=task["level"], images=(("HH", None, 8, 3), ("HV", None, 8, 3)), seed=task["seed"])
+    url = tracefs.put_product(f"c19mid_{os.getpid()}_{task['seed']}", b.files)
+    out = {"task": task, "bad": [], "n": 0}
+    try:
+        tree = ceos_alos2.open_alos2(url, backend_options=dict(use_cache=False, records_per_chunk=2))
+        im = b.images[0]
+        for k in range(1, 9):
+            box, copies = {}, {}
+            gate_ready = threading.Event()
+
+            def worker():
+                try:
+                    gate_ready.wait(10)
+                    v = tree[f"imagery/{im['group']}/data"].isel(rows=[0, 1, 2, 3]).values
+                    box["first"] = oracle.pixels_match(v, im, rows=[0, 1, 2, 3])
+                    for how, cp in list(copies.items()):
+                        try:
+                            v2 = cp[f"imagery/{im['group']}/data"].isel(rows=[4, 5, 6, 7]).values
+                            box[how] = oracle.pixels_match(v2, im, rows=[4, 5, 6, 7])
+                        except BaseException as e:  # noqa: B902
+                            box[how] = f"raised {type(e).__name__}: {str(e)[:120]}"
+                except BaseException as e:  # noqa: B902
+                    box["first"] = f"raised {type(e).__name__}: {str(e)[:120]}"
+
+            t = threading.Thread(target=worker, daemon=True)
+            t.start()
+            gate = _Gate(t.ident, k)
+            tracefs.SCHED[0] = gate
+            gate_ready.set()
+            parked = gate.reached.wait(10)
+            try:
+                copies["pickled copy"] = pickle.loads(pickle.dumps(tree))
+                copies["deep copy"] = copy.deepcopy(tree)
+                copies["tree.copy()"] = tree.copy()
+            except BaseException as e:  # noqa: B902
+                out["bad"].append((f"copy-mid-load:{k}", f"copying the tree while a load is at its file operation #{k} raised {type(e).__name__}: {str(e)[:120]}"))
+            gate.release.set()
+            t.join(60)
+            tracefs.SCHED[0] = None
+            out["n"] += 1 + len(copies)
+            if t.is_alive():
+                out["bad"].append((f"copy-mid-load:{k}", "the load did not complete within 60 s after the copies were taken (deadlock)"))
+                break
+            for how, msg in box.items():
+                if msg:
+                    out["bad"].append((f"copy-mid-load:{how}", f"copy taken while a load of the same variable was at its file operation #{k}{'' if parked else ' (not reached)'}; "
+                                       f"{'the interrupted load itself' if how == 'first' else 'first load from the ' + how + ', made by the thread that was loading'}: {msg}"))
+            if out["bad"]:
+                break
+    finally:
+        tracefs.SCHED[0] = None
+        tracefs.remove(url)
+    return out
+
+
 def run_any(item):
     kind, t = item
-    return {"stall": stall_load, "crowd": crowd_load, "sched": run_schedules}[kind](t)
+    return {"stall": stall_load, "crowd": crowd_load, "sched": run_schedules, "mid": copy_mid_load}[kind](t)
 
 
 def scripts_from_tlc(cfg, n, depth, seed):
@@ -329,11 +415,16 @@ def body(chk):
               for i, fs in enumerate(("local", "vtrace", "memory", "file"))]
     # one pool for everything (no helper threads in this process: forking from a multi-threaded parent can deadlock the children); the
     # long-running stall / crowd tasks go first so that they overlap with the schedules
-    mixed = [("stall", t) for t in stalls] + [("crowd", t) for t in crowds] + [("sched", t) for t in tasks]
+    mids = [dict(level=("1.5", "1.1")[i % 2], seed=chk.seed + 340 + i) for i in range(2)]
+    mixed = [("stall", t) for t in stalls] + [("crowd", t) for t in crowds] + [("mid", t) for t in mids] + [("sched", t) for t in tasks]
     mixed_res = checklib.pmap(run_any, mixed, chk.scratch)
     stall_res = [r for (k, _), r in zip(mixed, mixed_res) if k == "stall"]
     crowd_res = [r for (k, _), r in zip(mixed, mixed_res) if k == "crowd"]
     results = [r for (k, _), r in zip(mixed, mixed_res) if k == "sched"]
+    for res in [r for (k, _), r in zip(mixed, mixed_res) if k == "mid"]:
+        chk.count(res["n"], f"copy-mid-load:{res['task']['level']}")
+        for key, msg in res["bad"][:2]:
+            chk.violation(key, msg, {"task": res["task"]})
     for res in stall_res:
         chk.count(2, f"stall:{res['task']['hold']}:{res['task']['via']}")
         for who, msg in res["bad"]:
